@@ -97,7 +97,7 @@ pub fn run(rep: &Report) -> i32 {
                 Err(p) => rep.violation(format!("C13:panic:{}", drive::panic_site(&p)), format!("jet::{name} with {what} panicked: {p}"), replay("reject", "panic", &t)),
             }
         }
-        if i % 97 == 0 {
+        if i % 97 == 0 || rep.no_sample_yet() {
             rep.sample(3, || json!({"part": "a", "jet": name, "program": text}));
         }
     });
@@ -131,7 +131,7 @@ pub fn run(rep: &Report) -> i32 {
             drive::DUMMY.with(|env| pin_run(rep, "C13", &tag, &pinned, &vals, env, n < 2));
             n += 1;
         });
-        if i % 61 == 0 {
+        if i % 61 == 0 || rep.no_sample_yet() {
             rep.sample(6, || json!({"part": "b", "jet": name, "argument_tuples": n, "program": pinned.text}));
         }
     });
